@@ -13,12 +13,15 @@
 EXTENDS Integers, Sequences, FiniteSets, TLC
 CONSTANTS Writers,        \* writer processes; each sends one message of Frames[w] frames
           TwoFrame,       \* writers that stream their message in two frames (Writer); the others use Write
-          Dev,            \* subset of {"DataAfterClose", "EchoAfterOwnClose", "NoRecheck", "NoRearm", "CloseNowWaits", "BlockingCloseMu"}
-          PeerMay,        \* subset of {"ping", "pong", "fpong", "data", "close", "echo"}
+          Dev,            \* subset of {"DataAfterClose", "EchoAfterOwnClose", "NoRecheck", "NoRearm", "CloseNowWaits", "BlockingCloseMu",
+                          \*            "BlockingPong", "NoWaitForCloser"}
+          PeerMay,        \* subset of {"ping", "pong", "pong2", "guess", "fpong", "data", "close", "echo", "noread"}
           CtxProcs,       \* calls whose context the application may cancel at any moment (C10); {} switches this part off
-          Extra,          \* subset of {"N", "CR"}: a concurrent CloseNow; the CloseRead goroutine (then it, not R, is the reader)
-          Timers          \* subset of {"T5lock", "T5wait"}: the 5 s timers of waitCloseHandshake that may fire ({} = "promptly")
-K == "K"  R == "R"  P == "P"  N == "N"  CR == "CR"
+          Extra,          \* subset of {"N", "CR", "AC"}: a concurrent CloseNow; the CloseRead goroutine (then it, not R, is the reader);
+                          \* the asynchronous close() that a lock wait starts when its context expires (go m.c.close() in mu.lock)
+          Timers          \* subset of {"T5lock", "T5wait", "T5write"}: the 5 s timers of waitCloseHandshake and of control-frame writes
+                          \* that may fire ({} = "promptly")
+K == "K"  R == "R"  P == "P"  N == "N"  CR == "CR"  AC == "AC"
 FramesOf == [w \in Writers |-> IF w \in TwoFrame THEN 2 ELSE 1]
 Procs == Writers \cup {K, R, P} \cup Extra
 VARIABLES closed, closing, sentClose, lk, out, emitting, inq, pc, pingActive, pongSig, peerDid, ret, tl, wframe,
@@ -27,10 +30,12 @@ VARIABLES closed, closing, sentClose, lk, out, emitting, inq, pc, pingActive, po
           fired        \* the call whose context made the timeoutLoop close the connection
 vars == <<closed, closing, sentClose, lk, out, emitting, inq, pc, pingActive, pongSig, peerDid, ret, tl, wframe, armedW, cancelled, fired>>
 Locks == {"msg", "wf", "rd", "cm"}      \* cm = closeMu
+(* the peer has stopped reading: the transport is full and every payload write blocks until the connection is closed *)
+Stalled == "noread" \in peerDid
 Init == /\ closed = FALSE /\ closing = FALSE /\ sentClose = FALSE
         /\ lk = [l \in Locks |-> "free"] /\ out = <<>> /\ emitting = "none" /\ inq = <<>>
         /\ pc = [p \in Procs |-> CASE p = K -> "k_cas" [] p = R -> (IF CR \in Extra THEN "r_done" ELSE "r_lock") [] p = P -> "p_reg"
-                                   [] p = N -> "n_cas" [] p = CR -> "c_lock" [] OTHER -> "w_msglock"]
+                                   [] p = N -> "n_cas" [] p = CR -> "c_lock" [] p = AC -> "ac_idle" [] OTHER -> "w_msglock"]
         /\ pingActive = FALSE /\ pongSig = FALSE /\ peerDid = {} /\ ret = [p \in Procs |-> "none"]
         /\ tl = "running" /\ wframe = [w \in Writers |-> 1]
         /\ armedW = "none" /\ cancelled = {} /\ fired = "none"
@@ -42,6 +47,11 @@ TryLock(p, l, ok, fail) ==
    \/ /\ lk[l] = "free"
       /\ IF closed /\ "NoRecheck" \notin Dev THEN Goto(p, fail) /\ U(lk)
          ELSE Goto(p, ok) /\ lk' = [lk EXCEPT ![l] = p]
+   \* the caller's context is done while it waits: the call fails and, as documented on Conn, the connection is closed --
+   \* by a goroutine of its own, because close() waits for locks the caller may itself be holding.  (A lock wait that
+   \* loses the race against an already closed connection starts a closer too; it finds nothing to do and is not modelled.)
+   \/ /\ AC \in Extra /\ p \in CtxProcs /\ p \in cancelled /\ ~closed /\ U(lk)
+      /\ pc' = [pc EXCEPT ![p] = fail, ![AC] = IF @ = "ac_idle" THEN "ac_cl0" ELSE @]
 Unlock(l) == lk' = [lk EXCEPT ![l] = "free"]        \* not owner-checked, as in the code
 ----------------------------------------------------------------------------
 (* the frame path shared by every process: <st>_wflock, _arm, _hdr, _pay, _disarm, _wfunlock *)
@@ -66,6 +76,7 @@ FrameHdr(p, st) == /\ pc[p] = st \o "_hdr"
                       /\ emitting' = p /\ sentClose' = (sentClose \/ kind = "close") /\ Goto(p, st \o "_pay")
                    /\ U(<<closed, closing, lk, inq, pingActive, pongSig, peerDid, ret, tl, wframe, armedW, cancelled, fired>>)
 FramePay(p, st) == /\ pc[p] = st \o "_pay"
+                   /\ (~Stalled \/ closed)      \* a write into a full transport returns when the peer reads or the connection is closed
                    /\ out' = Append(out, [k |-> Kind(p, st), by |-> p, part |-> "pay", n |-> IF p \in Writers THEN wframe[p] ELSE 1])
                    /\ emitting' = "none" /\ Goto(p, st \o "_disarm")
                    /\ U(<<closed, closing, sentClose, lk, inq, pingActive, pongSig, peerDid, ret, tl, wframe, armedW, cancelled, fired>>)
@@ -77,7 +88,12 @@ FrameDisarm(p, st) == /\ pc[p] = st \o "_disarm" /\ Goto(p, st \o "_wfunlock")
                       /\ U(<<closed, closing, sentClose, lk, out, emitting, inq, pingActive, pongSig, peerDid, tl, wframe, cancelled, fired>>)
 FrameUnlock(p, st, after) == /\ pc[p] = st \o "_wfunlock" /\ Unlock("wf") /\ Goto(p, after)
                       /\ U(<<closed, closing, sentClose, out, emitting, inq, pingActive, pongSig, peerDid, ret, tl, wframe, armedW, cancelled, fired>>)
-Frame(p, st, after) == FrameLock(p, st, after) \/ FrameArm(p, st) \/ FrameHdr(p, st) \/ FramePay(p, st)
+(* writeControl gives Close, Ping-reply and error frames 5 s: when that context expires the timeoutLoop closes the connection *)
+T5Write(p, st) == /\ "T5write" \in Timers /\ pc[p] = st \o "_pay" /\ Stalled /\ ~closed /\ tl = "running"
+                  /\ Kind(p, st) \in {"close", "pong"}
+                  /\ closed' = TRUE /\ tl' = "exited"
+                  /\ U(<<closing, sentClose, lk, out, emitting, inq, pc, pingActive, pongSig, peerDid, ret, wframe, armedW, cancelled, fired>>)
+Frame(p, st, after) == FrameLock(p, st, after) \/ FrameArm(p, st) \/ FrameHdr(p, st) \/ FramePay(p, st) \/ T5Write(p, st)
                        \/ FrameDisarm(p, st) \/ FrameUnlock(p, st, after)
 ----------------------------------------------------------------------------
 (* writer: msgWriter.reset (message lock), FramesOf[w] frames, unlock *)
@@ -97,8 +113,9 @@ PWait == /\ pc[P] = "p_wait"
          /\ \/ ret[P] = "failed" /\ U(ret)                               \* writing the ping frame failed: Ping returns that error
             \/ ret[P] # "failed" /\ pongSig /\ ret' = [ret EXCEPT ![P] = "nil"]
             \/ ret[P] # "failed" /\ closed /\ ret' = [ret EXCEPT ![P] = "errClosed"]
+         /\ pongSig' = (pongSig /\ ret'[P] # "nil")          \* only the pong branch of the select takes the signal out of the channel
          /\ pingActive' = FALSE /\ Goto(P, "p_done")
-         /\ U(<<closed, closing, sentClose, lk, out, emitting, inq, pongSig, peerDid, tl, wframe, armedW, cancelled, fired>>)
+         /\ U(<<closed, closing, sentClose, lk, out, emitting, inq, peerDid, tl, wframe, armedW, cancelled, fired>>)
 Pinger == PReg \/ Frame(P, "p", "p_wait") \/ PWait
 (* close() = closeWith(false): closeMu; check-and-flip of the closed flag; the forceLocks of msgWriter.close and of readMu;   *)
 (* release.  closeWith(true) is the read loop closing the connection after a Close frame while it holds readMu: it may only   *)
@@ -121,22 +138,32 @@ DoCloseRd(p, st, after) ==
    \/ CmFlip(p, st) \/ CmForceWf(p, st) \/ CmForceRd(p, st, TRUE) \/ CmRelease(p, st, after)
    \/ DoClose(p, st \o "f", after)
 (* casClosing: only one of Close, CloseNow and the CloseRead goroutine wins *)
-Cas(p, at, win, lose) == /\ pc[p] = at
+Cas(p, at, win, lose) == /\ pc[p] = at /\ lk["cm"] = "free"      \* casClosing runs under closeMu
                          /\ IF closing THEN Goto(p, lose) /\ U(closing) ELSE closing' = TRUE /\ Goto(p, win)
                          /\ U(<<closed, sentClose, lk, out, emitting, inq, pingActive, pongSig, peerDid, ret, tl, wframe, armedW, cancelled, fired>>)
 (* waitGoroutines: timeoutLoopDone, closeReadDone (if CloseRead was called), closed *)
+(* and, last, closeMu is taken and released: whoever is inside close() -- the connection may have been closed by the        *)
+(* asynchronous closer of an expired lock wait -- has finished (the fix: commit of C20; before it Close could return while   *)
+(* that goroutine was still closing the transport).  Dev "NoWaitForCloser" is the earlier behaviour.                         *)
 WgDone == tl = "exited" /\ closed /\ (CR \in Extra => pc[CR] = "c_done")
+WgReady == WgDone /\ ("NoWaitForCloser" \in Dev \/ lk["cm"] = "free")
 (* what a reader (R, or K inside waitCloseHandshake) does with the next inbound frame *)
 ReadFrame(p, st, onData) ==
    /\ pc[p] = st \o "_hdr_in" /\ inq # <<>> /\ inq' = Tail(inq)
    /\ CASE Head(inq) = "ping"  -> Goto(p, st \o "pong_wflock") /\ U(pongSig)
-        [] Head(inq) = "pong"  -> pongSig' = (pongSig \/ pingActive) /\ Goto(p, st \o "_hdr_in")
+        [] Head(inq) = "pong"  -> U(pongSig) /\ Goto(p, IF pingActive THEN st \o "_pongsig" ELSE st \o "_hdr_in")   \* looked up in activePings
         [] Head(inq) = "fpong" -> U(pongSig) /\ Goto(p, st \o "_hdr_in")       \* foreign payload: ignored
         [] Head(inq) = "data"  -> Goto(p, onData) /\ U(pongSig)
         [] Head(inq) = "close" -> Goto(p, st \o "echo_wflock") /\ U(pongSig)
    /\ U(<<closed, closing, sentClose, lk, out, emitting, pingActive, peerDid, ret, tl, wframe, armedW, cancelled, fired>>)
+(* handleControl(opPong): the pong is handed to its Ping through a one-slot channel WITHOUT blocking (a duplicate is dropped).  *)
+(* Dev "BlockingPong": a plain channel send -- the reader, readMu held, waits for room; closing the connection does not wake it *)
+PongSignal(p, st) == /\ pc[p] = st \o "_pongsig"
+                     /\ ("BlockingPong" \in Dev => ~pongSig)      \* the channel it got hold of stays full if its Ping has given up
+                     /\ pongSig' = TRUE /\ Goto(p, st \o "_hdr_in")
+                     /\ U(<<closed, closing, sentClose, lk, out, emitting, inq, pingActive, peerDid, ret, tl, wframe, armedW, cancelled, fired>>)
 ReaderBody(p, st, after, onData) ==
-   \/ ReadFrame(p, st, onData)
+   \/ ReadFrame(p, st, onData) \/ PongSignal(p, st)
    \/ /\ pc[p] = st \o "_hdr_in" /\ closed /\ Goto(p, st \o "_rdunlock")       \* a blocked read is woken by close
       /\ U(<<closed, closing, sentClose, lk, out, emitting, inq, pingActive, pongSig, peerDid, ret, tl, wframe, armedW, cancelled, fired>>)
    \/ Frame(p, st \o "pong", st \o "_hdr_in")
@@ -156,7 +183,7 @@ T5(p, st) == /\ "T5wait" \in Timers /\ pc[p] = st \o "_hdr_in" /\ inq = <<>> /\ 
              /\ U(<<closed, closing, sentClose, lk, out, emitting, inq, pingActive, pongSig, peerDid, ret, tl, wframe, armedW, cancelled, fired>>)
 KPre == /\ pc[K] = "k_cl0pre" /\ Goto(K, "k_cl0")
         /\ U(<<closed, closing, sentClose, lk, out, emitting, inq, pingActive, pongSig, peerDid, ret, tl, wframe, armedW, cancelled, fired>>)
-WaitGor(p, at, done, val) == /\ pc[p] = at /\ WgDone /\ Goto(p, done) /\ ret' = [ret EXCEPT ![p] = val]
+WaitGor(p, at, done, val) == /\ pc[p] = at /\ WgReady /\ Goto(p, done) /\ ret' = [ret EXCEPT ![p] = val]
             /\ U(<<closed, closing, sentClose, lk, out, emitting, inq, pingActive, pongSig, peerDid, tl, wframe, armedW, cancelled, fired>>)
 Closer == Cas(K, "k_cas", "k1_wflock", "kl_wg") \/ Frame(K, "k1", "k_waitlock") \/ WaitLock(K, "k_waitlock", "k_hdr_in", "k_cl0pre")
           \/ T5(K, "k") \/ ReaderBody(K, "k", "k_cl0pre", "k_hdr_in") \/ KPre
@@ -194,9 +221,15 @@ TLFireW == /\ tl = "running" /\ ~closed /\ armedW # "none" /\ armedW \in cancell
 PeerAct(a, f) == /\ a \in PeerMay /\ a \notin peerDid /\ Len(inq) < 2 /\ inq' = Append(inq, f) /\ peerDid' = peerDid \cup {a}
                  /\ U(<<closed, closing, sentClose, lk, out, emitting, pc, pingActive, pongSig, ret, tl, wframe, armedW, cancelled, fired>>)
 SawOut(kind) == \E i \in 1..Len(out) : out[i].k = kind /\ out[i].part = "pay"
+(* pongs: after the ping was seen -- or, the payload being a counter the peer can guess, as soon as the Ping is registered *)
+MayPong == SawOut("ping") \/ ("guess" \in PeerMay /\ pingActive)
+PeerStall == /\ "noread" \in PeerMay /\ "noread" \notin peerDid /\ peerDid' = peerDid \cup {"noread"}
+             /\ U(<<closed, closing, sentClose, lk, out, emitting, inq, pc, pingActive, pongSig, ret, tl, wframe, armedW, cancelled, fired>>)
 Peer == \/ PeerAct("ping", "ping") \/ PeerAct("data", "data") \/ PeerAct("close", "close") \/ PeerAct("fpong", "fpong")
-        \/ (SawOut("ping") /\ PeerAct("pong", "pong")) \/ (SawOut("close") /\ PeerAct("echo", "close"))
-Lib == (\E w \in Writers : Writer(w)) \/ Pinger \/ Reader \/ Closer \/ CloseNower \/ CloseReader \/ TLExit \/ TLFireW
+        \/ (MayPong /\ (PeerAct("pong", "pong") \/ PeerAct("pong2", "pong"))) \/ (SawOut("close") /\ PeerAct("echo", "close"))
+        \/ PeerStall
+AsyncCloser == AC \in Extra /\ DoClose(AC, "ac", "ac_done")
+Lib == (\E w \in Writers : Writer(w)) \/ Pinger \/ Reader \/ Closer \/ CloseNower \/ CloseReader \/ AsyncCloser \/ TLExit \/ TLFireW
 App == \E p \in CtxProcs : CtxCancel(p)
 Next == Lib \/ Peer \/ App
 Spec == Init /\ [][Next]_vars /\ WF_vars(Lib)
@@ -217,10 +250,13 @@ NoMsgInterleave == \A i, j \in 1..Len(Hdrs) :
 MutexOK == \A l \in Locks : lk[l] \in {"free", "close"} \cup Procs
 EmitterHoldsLock == emitting # "none" => lk["wf"] = emitting
 (* C15 *)
-PingNilOnlyAfterPong == ret[P] = "nil" => "pong" \in peerDid
+PingNilOnlyAfterPong == ret[P] = "nil" => {"pong", "pong2"} \cap peerDid # {}
 PongOnlyForPing == \A i \in 1..Len(Hdrs) : Hdrs[i].k = "pong" => "ping" \in peerDid
 (* C20: when Close has returned the timeoutLoop goroutine is gone; C06: and the connection is closed *)
-CloseReturnedClean == \A p \in {K, N} \cap Procs : ret[p] \in {"returned", "errClosed"} => WgDone
+(*      ... and no asynchronous closer is still inside close() (one that has not got hold of closeMu yet finds the connection    *)
+(*      closed and leaves at once: it is not waited for, in the code as in the model)                                           *)
+AcInside == AC \in Extra /\ pc[AC] \in {"ac_cl1", "ac_cl2"}     \* it raised the closed flag itself and is releasing locks, buffers, transport
+CloseReturnedClean == \A p \in {K, N} \cap Procs : ret[p] \in {"returned", "errClosed"} => WgDone /\ ~AcInside
 (* C06: of concurrent Close/CloseNow calls at most one reports success, the others net.ErrClosed *)
 AtMostOneWinner == Cardinality({p \in {K, N} \cap Procs : ret[p] = "returned"}) <= 1
 (* C10: the context of a call that returned successfully never closes the connection; and whenever no frame is in flight the   *)
@@ -229,7 +265,7 @@ Harmless == fired # "none" => ret[fired] \notin {"ok", "nil"}
 ArmedOnlyInFrame == armedW # "none" => (\E st \in {"w", "p"} : pc[armedW] \in {st \o "_hdr", st \o "_pay", st \o "_disarm"}) \/ closed \/ "NoRearm" \in Dev
 (* C09 (with the 5 s timers KWaitLock/KT5 as the only timers): Close ends, every call returns *)
 CloseTerminates == <>(pc[K] = "k_done")
-Done == {"w_done", "p_done", "r_done", "k_done", "n_done", "c_done"}
+Done == {"w_done", "p_done", "r_done", "k_done", "n_done", "c_done", "ac_idle", "ac_done"}
 AllReturn == <>[](\A p \in Procs : pc[p] \in Done)
 (* C09 with Timers = {}: CloseNow needs no timer; once the connection is closed every call returns and the CloseRead goroutine *)
 (* ends (its context is cancelled) without any timer                                                                           *)
